@@ -21,9 +21,10 @@ structure Sfx (a b : Chain) : Prop where
   lc_a : a.lastclear ≤ a.iteration
   rows : ∀ i, i < a.len → rowAt a.scratch i = rowAt b.scratch (i + (a.lastclear - b.lastclear))
   current : a.current = b.current
+  chainId : a.chainId = b.chainId
 
 theorem Sfx.refl {c : Chain} (h : c.lastclear ≤ c.iteration) : Sfx c c :=
-  ⟨rfl, rfl, rfl, rfl, rfl, Nat.le_refl _, h, fun i _ => by simp, rfl⟩
+  ⟨rfl, rfl, rfl, rfl, rfl, Nat.le_refl _, h, fun i _ => by simp, rfl, rfl⟩
 
 theorem stepRec_congr {a b : Chain} (hb : a.beta = b.beta) (hp : a.props = b.props) (cur : St)
     (i : StepIn) : stepRec a cur i = stepRec b cur i := by
@@ -59,7 +60,7 @@ theorem sfx_step {a b a' b' : Chain} {i : StepIn} (h : Sfx a b)
     simp [h.props, hrec]
   refine ⟨by rw [hbeta_a, hbeta_b, h.beta], hprops, by rw [hita, hitb, h.iteration],
           by rw [hpa, hpb, h.props], by rw [hhb_a, hhb_b, h.hasblobs],
-          by rw [hlca, hlcb]; exact h.lc_ab, by rw [hlca, hita]; have := h.lc_a; omega, ?_, ?_⟩
+          by rw [hlca, hlcb]; exact h.lc_ab, by rw [hlca, hita]; have := h.lc_a; omega, ?_, ?_, ?_⟩
   · intro j hj
     rw [hsa, hsb, hlca, hlcb]
     by_cases hjl : j = a.len
@@ -77,6 +78,11 @@ theorem sfx_step {a b a' b' : Chain} {i : StepIn} (h : Sfx a b)
       have : b'.len ≠ 0 := by omega
       simp only [this, if_false, hlenb, hsb, Nat.add_sub_cancel, rowAt_setAt_same]; rfl
     rw [ea, eb, hrec]
+  · unfold step at ha hb
+    rw [hca] at ha; rw [hcb] at hb
+    simp at ha hb
+    subst ha; subst hb
+    exact h.chainId
 
 /-- If one of two related chains can step, so can the other. -/
 theorem sfx_step_none {a b : Chain} {i : StepIn} (h : Sfx a b) :
@@ -88,7 +94,7 @@ theorem sfx_step_none {a b : Chain} {i : StepIn} (h : Sfx a b) :
 theorem clear_fields (c : Chain) :
     c.clear.beta = c.beta ∧ c.clear.props = c.props ∧ c.clear.iteration = c.iteration ∧
     c.clear.proposed = c.proposed ∧ c.clear.hasblobs = c.hasblobs ∧
-    c.clear.lastclear = c.iteration := by
+    c.clear.lastclear = c.iteration ∧ c.clear.chainId = c.chainId := by
   by_cases h : c.iteration > 0 <;> simp [clear, h]
 
 theorem clear_current (c : Chain) : c.clear.current = c.current := by
@@ -111,33 +117,34 @@ theorem setScratchlen_current (c : Chain) (n : Nat) : (c.setScratchlen n).curren
   rw [hl, hs, hsc, rowAt_growTo]
 
 theorem sfx_clear_left {a b : Chain} (h : Sfx a b) : Sfx a.clear b := by
-  obtain ⟨f1, f2, f3, f4, f5, f6⟩ := clear_fields a
+  obtain ⟨f1, f2, f3, f4, f5, f6, f7⟩ := clear_fields a
   refine ⟨by rw [f1, h.beta], by rw [f2, h.props], by rw [f3, h.iteration], by rw [f4, h.proposed],
-          by rw [f5, h.hasblobs], ?_, by rw [f6, f3]; exact Nat.le_refl _, ?_, by rw [clear_current]; exact h.current⟩
+          by rw [f5, h.hasblobs], ?_, by rw [f6, f3]; exact Nat.le_refl _, ?_, by rw [clear_current]; exact h.current,
+          by rw [f7]; exact h.chainId⟩
   · rw [f6]; have := h.lc_ab; have := h.lc_a; omega
   · intro i hi; rw [len_clear] at hi; omega
 
 theorem sfx_grow_left {a b : Chain} (h : Sfx a b) (n : Nat) : Sfx (a.setScratchlen n) b := by
   refine ⟨h.beta, h.props, h.iteration, h.proposed, h.hasblobs, h.lc_ab, h.lc_a, ?_,
-          by rw [setScratchlen_current]; exact h.current⟩
+          by rw [setScratchlen_current]; exact h.current, h.chainId⟩
   intro i hi
   show rowAt (growTo a.scratch n) i = _
   rw [rowAt_growTo]; exact h.rows i hi
 
 theorem sfx_grow_right {a b : Chain} (h : Sfx a b) (n : Nat) : Sfx a (b.setScratchlen n) := by
   refine ⟨h.beta, h.props, h.iteration, h.proposed, h.hasblobs, h.lc_ab, h.lc_a, ?_,
-          by rw [setScratchlen_current]; exact h.current⟩
+          by rw [setScratchlen_current]; exact h.current, h.chainId⟩
   intro i hi
   show _ = rowAt (growTo b.scratch n) _
   rw [rowAt_growTo]; exact h.rows i hi
 
 theorem sfx_reset {a b : Chain} (h : Sfx a b) : Sfx a.resetProposals b.resetProposals :=
   ⟨h.beta, by simp [resetProposals, h.props], h.iteration, h.proposed, h.hasblobs, h.lc_ab, h.lc_a,
-   h.rows, h.current⟩
+   h.rows, h.current, h.chainId⟩
 
 theorem sfx_setBeta {a b : Chain} (h : Sfx a b) (x : Rat) :
     Sfx { a with beta := x } { b with beta := x } :=
-  ⟨rfl, h.props, h.iteration, h.proposed, h.hasblobs, h.lc_ab, h.lc_a, h.rows, h.current⟩
+  ⟨rfl, h.props, h.iteration, h.proposed, h.hasblobs, h.lc_ab, h.lc_a, h.rows, h.current, h.chainId⟩
 
 /-- A temperature swap rewriting the last record of both (each has one: the sweep follows a step). -/
 theorem sfx_rewriteLast {a b : Chain} (h : Sfx a b) (st : St) (hpos : 0 < a.len)
@@ -169,7 +176,9 @@ theorem sfx_rewriteLast {a b : Chain} (h : Sfx a b) (st : St) (hpos : 0 < a.len)
     unfold PTChain.rewriteLast; simp [hrb]
   refine ⟨by rw [a6, b6, h.beta], by rw [a5, b5, h.props], by rw [a1, b1, h.iteration],
           by rw [hpa, hpb, h.proposed], by rw [hha, hhb, h.hasblobs], by rw [a2, b2]; exact h.lc_ab,
-          by rw [a2, a1]; exact h.lc_a, ?_, by rw [ca, cb]⟩
+          by rw [a2, a1]; exact h.lc_a, ?_, by rw [ca, cb], ?_⟩
+  rotate_left
+  · unfold PTChain.rewriteLast; simp [hra, hrb, h.chainId]
   intro j hj
   rw [hla] at hj
   rw [a2, b2]
